@@ -383,11 +383,12 @@ theorem no_sigpipe_send (s : Sock) (c : Call) (script : Script) (e : Int) (r : C
     case sendTo a b n => cases a <;> cases b <;> simp [dataCallOf, sendtoCall] at h1
     case connect a => cases a <;> simp [dataCallOf, connCall] at h1
 
-/-- `sendto` is issued with flags 0: **no** MSG_NOSIGNAL (this is the code as it is) … -/
-theorem sendto_has_no_nosignal : sendtoFlags.toNat &&& MSG_NOSIGNAL.toNat = 0 := by decide
+/-- `sendto` carries MSG_NOSIGNAL as well (since the fix of `p_socket_send_to`; before it the flags were 0 and
+    the call relied on SIGPIPE being ignored process-wide) -/
+theorem no_sigpipe_send_to : sendtoFlags.toNat &&& MSG_NOSIGNAL.toNat = MSG_NOSIGNAL.toNat := by decide
 
-/-- … so `p_socket_send_to` relies on `p_socket_init_once` having set SIGPIPE to SIG_IGN for the whole process -/
-theorem no_sigpipe_send_to_partial :
+/-- independently, `p_socket_init_once` sets SIGPIPE to SIG_IGN for the whole process -/
+theorem init_once_ignores_sigpipe :
     runM initOnce [{ sys := .signal, ret := .ok 0 }] 0 =
       .ok ((), { script := [], errno := 0 }, [⟨.signal SIGPIPE true, { sys := .signal, ret := .ok 0 }⟩]) := by
   rfl
